@@ -55,7 +55,7 @@ def bounds(tier):
     }
 
 
-CAP = {"quick": 20000, "thorough": 120000}
+CAP = {"quick": 20000, "thorough": 60000}
 REAL_REPLAYS = {"quick": 3, "thorough": 8}
 
 
